@@ -65,6 +65,19 @@ def algebra_units(prefix, g, bracket=True, jac=False, Q=False):
     return U
 
 
+def euler_general_units():
+    """Euler groups other than the shipped B321, built through the public constructor: to_Matrix and Ad are offered"""
+    from cyecca.lie.group_so3 import SO3EulerLieGroup, EulerType, Axis
+    U = []
+    for tag, et, seq in (("Sxyz", EulerType.space_fixed, [Axis.x, Axis.y, Axis.z]), ("Szxz", EulerType.space_fixed, [Axis.z, Axis.x, Axis.z]),
+                         ("Bxyz", EulerType.body_fixed, [Axis.x, Axis.y, Axis.z])):
+        def mk(et=et, seq=seq):
+            return SO3EulerLieGroup(euler_type=et, sequence=seq)
+        U.append(("SO3Euler%s.to_Matrix" % tag, (lambda mk=mk: F("m", [("e", 3)], lambda e: dense(mk().elem(e).to_Matrix())))))
+        U.append(("SO3Euler%s.Ad" % tag, (lambda mk=mk: F("Ad", [("e", 3)], lambda e: dense(mk().elem(e).Ad())))))
+    return U
+
+
 def lie_files():
     from cyecca.lie.group_so2 import SO2, so2
     from cyecca.lie.group_se2 import SE2, se2
@@ -108,7 +121,7 @@ def lie_files():
         ("SO3Euler.from_Quat", lambda: F("c", [("q", 4)], lambda q: SO3EulerB321.from_Quat(SO3Quat.elem(q)).param)),
         ("SO3Euler.from_Mrp", lambda: F("c", [("r", 3)], lambda r: SO3EulerB321.from_Mrp(SO3Mrp.elem(r)).param)),
         ("SO3Euler.from_Dcm", lambda: F("c", [("R", 9)], lambda R: SO3EulerB321.from_Dcm(SO3Dcm.elem(R)).param)),
-    ]
+    ] + euler_general_units()
     files["se3"] = algebra_units("se3", se3, jac=True, Q=True)
     files["SE3Quat"] = group_units("SE3Quat", SE3Quat, with_from_matrix=False)
     files["SE3Mrp"] = group_units("SE3Mrp", SE3Mrp, with_from_matrix=False)
